@@ -10,10 +10,14 @@ IsCpi(ix) == Has(ix, "cpi") /\ ix.cpi = TRUE
 AllowedForeign == {"prog.compute", "prog.kamino", "prog.drift", "prog.jup", "prog.titan", "prog.ata"}
 IsForeign(ix) == ix.op = "foreign"
 ForeignProg(ix) == IF Has(ix, "program") THEN ix.program ELSE "prog.unknown"
-PreStartOk(ix) == (IsForeign(ix) /\ ForeignProg(ix) = "prog.compute") \/ (ix.op = "init_liq_record" /\ ~IsCpi(ix))
-                  \/ (IsForeign(ix) /\ ForeignProg(ix) \in {"prog.kamino", "prog.drift"})
+\* before the start: compute budget, record init, and the whitelisted venue refreshes (that program AND that instruction)
+WhitelistedRefresh(ix) ==
+  \/ ix.op \in {"kamino_refresh", "drift_refresh"}
+  \/ (IsForeign(ix) /\ Has(ix, "disc") /\ ForeignProg(ix) = "prog.kamino" /\ ix.disc \in {"refresh_reserve", "refresh_obligation"})
+  \/ (IsForeign(ix) /\ Has(ix, "disc") /\ ForeignProg(ix) = "prog.drift" /\ ix.disc = "update_spot_market_cumulative_interest")
+PreStartOk(ix) == (IsForeign(ix) /\ ForeignProg(ix) = "prog.compute") \/ (ix.op = "init_liq_record" /\ ~IsCpi(ix)) \/ WhitelistedRefresh(ix)
 InsideOk(ix) == (ix.op \in {"withdraw", "repay", "kamino_withdraw", "drift_withdraw"} /\ ~IsCpi(ix)) \/ (IsForeign(ix) /\ ForeignProg(ix) \in AllowedForeign)
-                \/ (ix.op = "init_liq_record" /\ ~IsCpi(ix))
+                \/ (ix.op = "init_liq_record" /\ ~IsCpi(ix)) \/ ix.op \in {"kamino_refresh", "drift_refresh"}
 StartOps == {"start_liq", "start_delev"}
 EndOf(op) == IF op = "start_liq" THEN "end_liq" ELSE "end_delev"
 FIVE_USD == RInt(5)
@@ -52,6 +56,14 @@ C10(pre, e, post, line) ==
                       h1u == HealthRef(post, e, post.accts[an], "Maint", "unfav")
                       q0 == HealthRef(preA, e, pre.accts[an], "Equity", "fav")
                       q1 == HealthRef(post, e, post.accts[an], "Equity", "fav")
+                      \* the same valuation with isolated-tier deposits counted at their price (the program's own end checks
+                      \* value them at zero, so whatever leaves such a position is seized value they cannot see)
+                      Vis(s) == [s EXCEPT !.banks = [bn \in DOMAIN s.banks |->
+                                   IF s.banks[bn].cfg.risk_tier = 1 THEN [s.banks[bn] EXCEPT !.cfg = [@ EXCEPT !.risk_tier = 0]] ELSE s.banks[bn]]]
+                      hasIso == \E j \in ActiveSlots(pre.accts[an]) : pre.banks[pre.accts[an].bal[j].bank].cfg.risk_tier = 1
+                      x0 == HealthRef(Vis(preA), e, pre.accts[an], "Equity", "fav")
+                      x1 == HealthRef(Vis(post), e, post.accts[an], "Equity", "fav")
+                      seizedX == RSub(x0.av, x1.av)
                       small == RLt(RSub(q0.av, q0.tol), FIVE_USD)
                       seized == RSub(q0.av, q1.av)
                       repaid == RSub(q0.lv, q1.lv)
@@ -61,6 +73,10 @@ C10(pre, e, post, line) ==
                      /\ Chk("C10", "taken_over_only_when_unhealthy", line, RLt(Health(h0u), h0u.tol), [acct |-> an])
                      /\ Chk("C10", "health_not_worse_at_end", line, RGe(RAdd(Health(h1), h1.tol), RSub(Health(h0u), h0u.tol)), [acct |-> an])
                      /\ (~small) => Chk("C10", "still_not_healthy_at_end", line, RLe(Health(h1u), h1u.tol), [acct |-> an])
+                     /\ (hasIso /\ x0.known /\ x1.known /\ RGt(RSub(seizedX, seized), RAdd(tol, RAdd(x0.tol, x1.tol))) /\ ~RLt(RSub(x0.av, x0.tol), FIVE_USD)) =>
+                          Chk("C10", "value_taken_from_positions_the_end_checks_cannot_see_counts_as_seized", line,
+                              RLe(seizedX, RAdd(RMul(repaid, maxFee), RMul(RAdd(tol, RAdd(x0.tol, x1.tol)), RInt(4)))),
+                              [acct |-> an, seized_num |-> seizedX[1], seized_den |-> seizedX[2], repaid_num |-> repaid[1], repaid_den |-> repaid[2]])
                      /\ (~small) => Chk("C10", "seized_within_premium_of_repaid", line,
                                        RLe(seized, RAdd(RMul(repaid, maxFee), RMul(tol, RInt(4)))),
                                        [acct |-> an, seized_num |-> seized[1], seized_den |-> seized[2], repaid_num |-> repaid[1], repaid_den |-> repaid[2]])
